@@ -47,6 +47,19 @@ def cq_search(repo, prop, tier, seed=1):
         except subprocess.TimeoutExpired:
             res.update({"status": "not_run", "reason": "bounded replay exceeded its time limit", "wall_s": round(time.time() - t0, 2)})
             return res
+        if p.returncode < 0 or p.returncode in (134, 139):
+            # the real code killed the process (SIGSEGV / abort): memory unsafety. Re-run with tracing to name the script.
+            sig = -p.returncode if p.returncode < 0 else p.returncode - 128
+            try:
+                p2 = subprocess.run([exe, "search", str(depth), str(nrandom), str(seed), prop], stdout=subprocess.PIPE, stderr=subprocess.PIPE, timeout=1800, env=dict(os.environ, CQ_TRACE="1"))
+                traced = [l for l in p2.stderr.decode("utf8", "replace").splitlines() if l.startswith('{"n":')]
+                sc = json.loads(traced[-1]) if traced else {}
+            except Exception:
+                sc = {}
+            res.update({"status": "mismatch", "wall_s": round(time.time() - t0, 2),
+                        "mismatch": dict(sc, mismatch=True, origin="crash", kind="process-killed-by-signal-%d" % sig, props="C01 C03 C15",
+                                         expected="every script runs to its end", observed="the real code crashed the process (signal %d) while running this script" % sig)})
+            return res
         line = (p.stdout.decode("utf8", "replace").strip().splitlines() or ["{}"])[-1]
         try:
             j = json.loads(line)
@@ -225,5 +238,59 @@ def net_search(repo, prop, tier, seed=1):
             tag = hashlib.sha1(repo.encode()).hexdigest()[:8]
             shutil.rmtree(os.path.join(WORK_BASE, "net_driver-" + tag), ignore_errors=True)
             shutil.rmtree(os.path.join(WORK_BASE, "des-drivers-target-" + tag), ignore_errors=True)
+        fcntl.flock(lockf, fcntl.LOCK_UN)
+        lockf.close()
+
+
+def alloc_search(repo, prop, tier, seed=1):
+    """C15 bounded replay (replay/alloc_driver): random allocate/deallocate histories on the verbatim alloc.rs."""
+    t0 = time.time()
+    os.makedirs(WORK_BASE, exist_ok=True)
+    lockf = open(os.path.join(WORK_BASE, "cq_driver.lock"), "w")
+    fcntl.flock(lockf, fcntl.LOCK_EX)
+    tag = hashlib.sha1(repo.encode()).hexdigest()[:8]
+    d = os.path.join(WORK_BASE, "alloc_driver-" + tag)
+    try:
+        count = 300000 if tier == "thorough" else 30000
+        res = {"what": "bounded replay of the page allocator (des-cqueue/src/stable/alloc.rs included verbatim): %d seeded random histories of allocate/deallocate with mixed sizes (1..2000) and alignments (1..16), page sizes 4096/8192/16384, every third history with one uniform layout; shadow model: every block inside a page the allocator owns, aligned as requested, disjoint from every live block, contents intact until released" % count,
+               "bound": "%d histories of 5..64 operations; seed %d" % (count, seed), "labelled": "bounded", "counts_as_proof": False}
+        os.makedirs(os.path.join(d, "src"), exist_ok=True)
+        for f in ("Cargo.toml", "Cargo.lock"):
+            shutil.copy(os.path.join(ROOT, "replay/alloc_driver", f), os.path.join(d, f))
+        open(os.path.join(d, "src/main.rs"), "w").write(open(os.path.join(ROOT, "replay/alloc_driver/src/main.rs")).read().replace("@REPO@", repo))
+        env = dict(os.environ, CARGO_NET_OFFLINE="true")
+        p = subprocess.run(["cargo", "build", "--offline"], cwd=d, env=env, stdout=subprocess.PIPE, stderr=subprocess.STDOUT, timeout=900)
+        if p.returncode != 0:
+            out = p.stdout.decode("utf8", "replace")
+            errs = [l for l in out.splitlines() if l.startswith("error")]
+            res.update({"status": "not_run", "reason": "driver does not build against this tree: " + (errs or [out[-300:]])[0], "wall_s": round(time.time() - t0, 2)})
+            return res
+        exe = os.path.join(d, "target/debug/alloc_driver")
+        try:
+            p = subprocess.run([exe, "search", str(count), str(seed)], stdout=subprocess.PIPE, stderr=subprocess.PIPE, timeout=900)
+        except subprocess.TimeoutExpired:
+            res.update({"status": "mismatch", "mismatch": {"mismatch": True, "kind": "allocator-does-not-return", "props": "C15", "expected": "every history terminates", "observed": "no result within 900 s"}, "wall_s": round(time.time() - t0, 2)})
+            return res
+        res["wall_s"] = round(time.time() - t0, 2)
+        res["cmd"] = "alloc_driver search %d %d   (built from replay/alloc_driver, include!(%s/des-cqueue/src/stable/alloc.rs))" % (count, seed, repo)
+        if p.returncode < 0 or p.returncode in (134, 139):
+            sig = -p.returncode if p.returncode < 0 else p.returncode - 128
+            res.update({"status": "mismatch", "mismatch": {"mismatch": True, "kind": "process-killed-by-signal-%d" % sig, "props": "C15", "expected": "every history runs to its end", "observed": "the allocator crashed the process (signal %d)" % sig}})
+            return res
+        line = (p.stdout.decode("utf8", "replace").strip().splitlines() or ["{}"])[-1]
+        try:
+            j = json.loads(line)
+        except Exception:
+            j = {}
+        if j.get("mismatch"):
+            res.update({"status": "mismatch", "mismatch": j})
+        elif "scenarios" in j:
+            res.update({"status": "no_mismatch", "scenarios": j["scenarios"]})
+        else:
+            res.update({"status": "not_run", "reason": "driver crashed: " + p.stderr.decode("utf8", "replace")[-300:]})
+        return res
+    finally:
+        if repo != "/repo":
+            shutil.rmtree(d, ignore_errors=True)
         fcntl.flock(lockf, fcntl.LOCK_UN)
         lockf.close()
